@@ -2,6 +2,7 @@ package props
 
 import (
 	"bytes"
+	"errors"
 	"fmt"
 	"io"
 	"math"
@@ -15,6 +16,12 @@ import (
 )
 
 // --- independent readers (same reading of the documentation as refwire) ---
+
+// isEndOfInput: "an end-of-input error" - io.EOF, io.ErrUnexpectedEOF, or an
+// error wrapping one of them.
+func isEndOfInput(err error) bool {
+	return errors.Is(err, io.EOF) || errors.Is(err, io.ErrUnexpectedEOF)
+}
 
 func refUvarint(b []byte) (v uint64, n int, ok bool) {
 	for i := 0; i < 9; i++ {
@@ -139,7 +146,7 @@ func (c *codecRun) checkEncodeU(u uint64) {
 	for k := 0; k < n; k++ {
 		s := b[:k:k]
 		_, err := enc.DecodeUvarint64(&s)
-		if err != io.EOF || len(s) != k {
+		if !isEndOfInput(err) || len(s) != k {
 			c.fail("C18.prefix-eof", "uvarint %d: the %d-byte prefix of % x gave err=%v and left %d bytes", u, k, b, err, len(s))
 			return
 		}
@@ -176,12 +183,12 @@ func (c *codecRun) checkEncodeU(u uint64) {
 		}
 		for k := 0; k < len(sb); k++ {
 			s := sb[:k:k]
-			if _, err := enc.DecodeVarint64(&s); err != io.EOF || len(s) != k {
+			if _, err := enc.DecodeVarint64(&s); !isEndOfInput(err) || len(s) != k {
 				c.fail("C18.prefix-eof", "varint %d: the %d-byte prefix of % x gave err=%v", sv, k, sb, err)
 				return
 			}
 			s = sb[:k:k]
-			if v32, err := enc.DecodeVarint32(&s); err != io.EOF || len(s) != k {
+			if v32, err := enc.DecodeVarint32(&s); !isEndOfInput(err) || len(s) != k {
 				c.fail("C18.prefix-eof", "DecodeVarint32 of the %d-byte prefix of % x (value %d) gave %d, err=%v", k, sb, sv, v32, err)
 				return
 			}
@@ -220,7 +227,7 @@ func (c *codecRun) checkEncodeF(f float64) {
 	}
 	for k := 0; k < n; k++ {
 		s := b[:k:k]
-		if _, err := enc.DecodeVarfloat64(&s); err != io.EOF || len(s) != k {
+		if _, err := enc.DecodeVarfloat64(&s); !isEndOfInput(err) || len(s) != k {
 			c.fail("C18.prefix-eof", "varfloat %v: the %d-byte prefix of % x gave err=%v", f, k, b, err)
 			return
 		}
@@ -244,7 +251,7 @@ func (c *codecRun) checkEncodeF(f float64) {
 	}
 	for k := 0; k < 8; k++ {
 		s := le[:k:k]
-		if _, err := enc.DecodeFloat64LE(&s); err != io.EOF || len(s) != k {
+		if _, err := enc.DecodeFloat64LE(&s); !isEndOfInput(err) || len(s) != k {
 			c.fail("C18.prefix-eof", "float64LE: the %d-byte prefix gave err=%v", k, err)
 			return
 		}
@@ -272,7 +279,7 @@ func (c *codecRun) checkDecode(in []byte) {
 			if err != nil || v != rv || len(in)-len(s) != rn {
 				c.fail("C18.decode", "DecodeUvarint64(% x) = %d, err=%v, consumed %d; the documented format reads %d from %d bytes", in, v, err, len(in)-len(s), rv, rn)
 			}
-		} else if err != io.EOF || len(s) != len(in) {
+		} else if !isEndOfInput(err) || len(s) != len(in) {
 			c.fail("C18.prefix-eof", "DecodeUvarint64 of the incomplete string % x gave err=%v and consumed %d bytes", in, err, len(in)-len(s))
 		}
 	}
@@ -294,11 +301,11 @@ func (c *codecRun) checkDecode(in []byte) {
 				c.fail("C18.varint32", "DecodeVarint32(% x) accepted %d", in, rv)
 			}
 		} else {
-			if err != io.EOF || len(s) != len(in) {
+			if !isEndOfInput(err) || len(s) != len(in) {
 				c.fail("C18.prefix-eof", "DecodeVarint64 of the incomplete string % x gave err=%v", in, err)
 			}
 			s2 := in
-			if v32, err := enc.DecodeVarint32(&s2); err != io.EOF || len(s2) != len(in) {
+			if v32, err := enc.DecodeVarint32(&s2); !isEndOfInput(err) || len(s2) != len(in) {
 				c.fail("C18.prefix-eof", "DecodeVarint32 of the incomplete string % x gave %d, err=%v and consumed %d bytes", in, v32, err, len(in)-len(s2))
 			}
 		}
@@ -311,7 +318,7 @@ func (c *codecRun) checkDecode(in []byte) {
 			if err != nil || !sameFloat(v, rv) || len(in)-len(s) != rn {
 				c.fail("C18.decode", "DecodeVarfloat64(% x) = %v, err=%v, consumed %d; the documented format reads %v from %d bytes", in, v, err, len(in)-len(s), rv, rn)
 			}
-		} else if err != io.EOF || len(s) != len(in) {
+		} else if !isEndOfInput(err) || len(s) != len(in) {
 			c.fail("C18.prefix-eof", "DecodeVarfloat64 of the incomplete string % x gave err=%v", in, err)
 		}
 	}
@@ -410,7 +417,7 @@ func codecShards(tier string) []mc.Shard {
 				}
 			}()
 			var e []byte
-			if _, err := enc.DecodeFlag(&e); err != io.EOF {
+			if _, err := enc.DecodeFlag(&e); !isEndOfInput(err) {
 				c.fail("C18.flag", "DecodeFlag of an empty slice gave %v", err)
 			}
 		}()
